@@ -23,10 +23,10 @@ func init() {
 func genGobValue(r *hx.RNG) *decimal.Decimal {
 	switch r.Intn(12) {
 	case 0:
-		z := hx.Mk(oracle.Val{Form: oracle.Zero, Neg: r.Bool()}, uint(r.Range(0, 80)), r.Mode())
+		z := hx.MkR(r, oracle.Val{Form: oracle.Zero, Neg: r.Bool()}, uint(r.Range(0, 80)), r.Mode())
 		return z
 	case 1:
-		return hx.Mk(oracle.Val{Form: oracle.Inf, Neg: r.Bool()}, uint(r.Range(0, 80)), r.Mode())
+		return hx.MkR(r, oracle.Val{Form: oracle.Inf, Neg: r.Bool()}, uint(r.Range(0, 80)), r.Mode())
 	}
 	n := r.Range(1, 130)
 	v := r.Finite(n, r.LeadExp())
